@@ -204,7 +204,7 @@ def run_case(case):
 
 
 def strategy():
-    d = gen.desc_sized(alphabet="ab é\n", max_runs=4, max_len=4, big_runs=30, big_len=80, huge=False)
+    d = gen.desc_sized(alphabet="ab é\n31m[", max_runs=4, max_len=4, big_runs=30, big_len=80, huge=False)
     pair = st.fixed_dictionaries(
         {
             "a": d,
@@ -216,7 +216,8 @@ def strategy():
             "a_build": gen.BUILDS, "a_obs": gen.OBS, "b_build": gen.BUILDS, "b_obs": gen.OBS,
         }
     )
-    rtext = st.one_of(st.text(alphabet="ab'\"\\\n\té中 x", min_size=0, max_size=5), st.text(alphabet="ab'\"\\\n\té中 x", min_size=0, max_size=5),
+    rtext = st.one_of(st.text(alphabet="ab'\"\\\n\té中 x", min_size=0, max_size=5), st.text(alphabet="ab'\"\\\n\té中 x+(),=*", min_size=0, max_size=8),
+                      st.text(alphabet="+'\"a()", min_size=0, max_size=8),
                       st.text(alphabet=" \t\n\xa0", min_size=0, max_size=40), st.text(alphabet="ab' \\\n", min_size=12, max_size=120))
     rdesc = st.lists(st.tuples(rtext, gen.atts()).map(list), min_size=1, max_size=4)
     rep = st.fixed_dictionaries({"kind": st.just("repr"), "desc": rdesc})
